@@ -21,6 +21,8 @@ def field_meta(ch, carrier, salt):
         return '%s(method(eq_asym))' % carrier
     if ch == 'l':
         return '%s(method = "eq_par")' % carrier if salt % 2 else '%s(method(eq_par))' % carrier
+    if ch == 'x':
+        return ['%s(ignore, method(eq_poison))', '%s(method(eq_poison), ignore)', '%s(method = "eq_poison", ignore = true)'][salt % 3] % carrier
     raise ValueError(ch)
 
 
@@ -44,9 +46,9 @@ def build(shape, assign, cfg, generic=False, ctx='alone'):
         for fi in range(f.n):
             ch = assign[vi][fi]
             salt += 1
-            t.append('I' if ch == 'i' else ('G' if generic and ch == 'c' else 'V'))
+            t.append('I' if ch in 'ix' else ('G' if generic and ch == 'c' else 'V'))
             a.append(place(field_meta(ch, carrier, salt + vi), 'Hash(ignore)', ctx))
-            d.append(['I(0)', 'I(1)'] if ch == 'i' else ['V(0)', 'V(1)', 'V(2)'])
+            d.append(['I(0)', 'I(1)'] if ch in 'ix' else ['V(0)', 'V(1)', 'V(2)'])
         tys.append(t)
         fattrs.append(a)
         doms.append(d)
@@ -59,8 +61,8 @@ def build(shape, assign, cfg, generic=False, ctx='alone'):
     src += 'fn values() -> Vec<%s> {\n    vec![\n%s    ]\n}\n' % (tyname, ''.join('        %s,\n' % v for v in vals))
     arms = []
     for vi, f in enumerate(shape.variants):
-        ab = ['_' if assign[vi][i] == 'i' else 'a%d' % i for i in range(f.n)]
-        bb = ['_' if assign[vi][i] == 'i' else 'b%d' % i for i in range(f.n)]
+        ab = ['_' if assign[vi][i] in 'ix' else 'a%d' % i for i in range(f.n)]
+        bb = ['_' if assign[vi][i] in 'ix' else 'b%d' % i for i in range(f.n)]
         terms = [field_term(assign[vi][i], 'a%d' % i, 'b%d' % i) for i in range(f.n)]
         terms = [t for t in terms if t]
         arms.append('        (%s, %s) => %s,\n' % (S.pattern(shape, vi, ab), S.pattern(shape, vi, bb),
@@ -95,7 +97,8 @@ def generate(tier):
         alph = 'ciml'
     for sh in shapes:
         big = sum(f.n for f in sh.variants) > 4
-        for assign in assignments(sh, 'cim' if big else alph):
+        nf = sum(f.n for f in sh.variants)
+        for assign in assignments(sh, 'cim' if big else (alph + 'x' if nf <= 2 else alph)):
             for cfg in CFGS:
                 cases.append(build(sh, assign, cfg))
         # one generic instantiation per shape with the plain assignment rotated
@@ -127,7 +130,7 @@ def check(v, tier):
     return v.finish(RULE, {'bounds': BOUNDS[tier]})
 
 
-RULE = ('every struct/enum shape within the bound x every assignment of {compared, ignored (type whose == panics), '
+RULE = ('every struct/enum shape within the bound x every assignment of {compared, ignored (type whose == panics), ignored + method (both parameters: still ignored), '
         'method (asymmetric), method (lawful)} per field x attribute carrier {PartialEq alone, PartialEq(..) with Eq, '
         'Eq(..) with PartialEq} x attribute context (other trait\'s attribute before/after/same list); per program all '
         'ordered pairs of values over {0,1,2} (ignored fields {0,1}) against the field-wise model, != as negation, '
